@@ -45,6 +45,11 @@ let thread_op (st : sstate) (op : string) : sstate =
   | ["wk"; i] -> step st (SWalk (nat i))
   | ["tf"; i; p; j] -> step st (STransform (nat i, path_of p, nat j))
   | ["nb"; v] -> step st (SMake (dm_of_commas v))
+  | ["lb"; i] -> step st (SLargeBytes (nat i))
+  | ["rr"; r; k] -> step st (SReaderRead (nat r, if k = "a" then None else Some (nat k)))
+  | ["sk"; r; o; w] -> step st (SReaderSeek (nat r, z_of_int (int_of_string o),
+                                             (match w with "s" -> SeekStart | "c" -> SeekCurrent | _ -> SeekEnd)))
+  | ["mt"; i; a; b] -> step st (SMatch (nat i, z_of_int (int_of_string a), z_of_int (int_of_string b)))
   | ["an"; i] ->
     let pr = (match node (int_of_string i) with
         | Some (RMap _) -> PrMap | Some (RList _) -> PrList | _ -> PrAny) in
@@ -97,11 +102,11 @@ let predict (kind : string) (n : int) (spec : string) (bare : string) : string =
          basic_model (List.map (fun v -> SMake (dm_of_commas v)) vals) ths
        | _ -> failwith "basic spec")
     | "stream" ->
+      (* what one goroutine of the harness does with the shared stream node (register 1); its own
+         registers start at 2: lb -> 2, …, mt -> 7 (the matched node), which it reads as well *)
       let shared = [SNewSlice (bytes_of_hex "6162636465666768"); SNewStreamNode O] in
-      let st0 = List.fold_left (fun st o -> fst (sstep !cfg st o)) sinit shared in
-      let (ps0, _) = st0.sx in
-      let r = (match List.nth st0.sregs 1 with HNode r -> r | _ -> failwith "stream node") in
-      basic_check !cfg ps0.hp (List.init n (fun k -> (nat_of_int (k + 1), [PRead (HNode r, ABytes)])))
+      let ops = ["du:1"; "lb:1"; "rr:2:3"; "sk:2:0:e"; "sk:2:2:s"; "rr:2:a"; "mt:1:1:5"; "du:7"; "du:1"] in
+      basic_model shared (List.init n (fun _ -> ops))
     | k ->
       (match scen_of k with
        | Some s -> scen_check s (nat_of_int n)
